@@ -212,6 +212,8 @@ Proof.
 Qed.
 
 (* ---------- filter ---------- *)
+Definition single (p : path) : bool := match p with [_] => true | _ => false end.
+
 Lemma get_idents_gen : forall l acc, fold_res (fun acc m => x <- get_ident m ;; Ok (acc ++ [x])%list) l acc
   = if forallb (fun m => single (mpath m)) l then Ok (acc ++ map leaf_name l)%list else Diag DExpectIdent.
 Proof.
@@ -223,32 +225,39 @@ Qed.
 Lemma get_idents_spec : forall l, get_idents l = if forallb (fun m => single (mpath m)) l then Ok (map leaf_name l) else Diag DExpectIdent.
 Proof. intros. unfold get_idents. rewrite get_idents_gen. auto. Qed.
 
+Lemma words_fold : forall l, fold_res (fun (_ : unit) x => expect_word x) l tt = if forallb v_flag l then Ok tt else Diag DValue.
+Proof. induction l; simpl; auto. destruct a; simpl; auto. Qed.
+
 Lemma ctor_names : forall l, forallb (fun m => single (mpath m)) l = true -> existsb is_ctor_name (map leaf_name l) = existsb names_ctor l.
 Proof.
   induction l; simpl; intros; auto. apply andb_prop in H. destruct H. rewrite IHl; auto. f_equal.
   unfold names_ctor, leaf_name, is_ctor_name, is_ident. destruct (mpath a) as [|x [|y r]]; simpl in *; try discriminate. auto.
 Qed.
 
-Lemma bare_single : forall l, existsb sloppy l = false -> forallb bare l = forallb (fun m => single (mpath m)) l.
+Lemma forallb_and : forall {A} (f g : A -> bool) l, forallb (fun x => f x && g x) l = forallb f l && forallb g l.
+Proof. induction l; simpl; auto. rewrite IHl. destruct (f a), (g a); simpl; auto. rewrite andb_false_r; auto. Qed.
+
+Lemma bare_words : forall l, forallb bare l = forallb v_flag l && forallb (fun m => single (mpath m)) l.
 Proof.
-  induction l; simpl; intros; auto. apply orb_false_elim in H. destruct H. rewrite IHl; auto. f_equal.
-  unfold sloppy in H. unfold bare. destruct a as [p|p l'|p|p v]; simpl in *; auto; destruct p as [|x [|y r]]; simpl in *; auto; discriminate.
+  intros. rewrite <- forallb_and. induction l; simpl; auto. rewrite IHl. f_equal.
+  destruct a as [p|p l'|p|p v]; simpl; auto; destruct p as [|x [|y r]]; auto.
 Qed.
 
-Lemma filter_isok : forall m incl, (match m with MList _ l => existsb sloppy l | _ => false end) = false ->
-  is_ok (filter_parse m incl) = v_filter m.
+Lemma filter_isok : forall m incl, is_ok (filter_parse m incl) = v_filter m.
 Proof.
-  intros m incl H. unfold filter_parse, v_filter. destruct m as [p|p l|p|p v]; simpl; auto.
-  rewrite check_path_set_nil. rewrite get_idents_spec. rewrite (bare_single l H).
-  destruct (forallb (fun m => single (mpath m)) l) eqn:E; simpl.
-  - rewrite (ctor_names l E). destruct (nodupb (map mpath l)); simpl; auto. destruct (existsb names_ctor l); auto.
-  - destruct (nodupb (map mpath l)); auto.
+  intros m incl. unfold filter_parse, v_filter. destruct m as [p|p l|p|p v]; simpl; auto.
+  rewrite check_path_set_nil. rewrite words_fold. rewrite get_idents_spec. rewrite bare_words.
+  destruct (nodupb (map mpath l)); simpl; [|repeat rewrite andb_false_r; auto].
+  destruct (forallb v_flag l); simpl; auto.
+  destruct (forallb (fun m => single (mpath m)) l) eqn:E; simpl; auto.
+  rewrite (ctor_names l E). destruct (existsb names_ctor l); auto.
 Qed.
 
 Lemma filter_ok : forall m incl f, filter_parse m incl = Ok f -> f = filter_den incl m.
 Proof.
   intros m incl f. unfold filter_parse, filter_den. destruct m as [p|p l|p|p v]; simpl; try discriminate.
-  destruct (check_path_set l []); try discriminate. rewrite get_idents_spec.
+  destruct (check_path_set l []); try discriminate. rewrite words_fold. destruct (forallb v_flag l); simpl; try discriminate.
+  rewrite get_idents_spec.
   destruct (forallb (fun m => single (mpath m)) l); simpl; try discriminate.
   destruct (existsb is_ctor_name (map leaf_name l)); try discriminate. intros H; inversion H. destruct incl; auto.
 Qed.
@@ -256,7 +265,8 @@ Qed.
 Lemma filter_not_panic : forall m incl, filter_parse m incl <> Panic.
 Proof.
   intros m incl. unfold filter_parse. destruct m as [p|p l|p|p v]; simpl; try discriminate.
-  destruct (check_path_set l []); try discriminate. rewrite get_idents_spec.
+  destruct (check_path_set l []); try discriminate. rewrite words_fold. destruct (forallb v_flag l); simpl; try discriminate.
+  rewrite get_idents_spec.
   destruct (forallb (fun m => single (mpath m)) l); simpl; try discriminate.
   destruct (existsb is_ctor_name (map leaf_name l)); discriminate.
 Qed.
@@ -267,6 +277,9 @@ Definition filter_free (c : acfg) (m : meta) : bool :=
 
 Ltac crush_m m := destruct m as [?p|?p ?l|?p|?p ?v]; simpl in *; try discriminate; auto.
 
+Lemma word_isok : forall m (c : acfg), is_ok (_ <- expect_word m ;; Ok c) = v_flag m.
+Proof. destruct m; auto. Qed.
+
 Lemma step_actor_ok : forall c m c', step_actor fexists c m = Ok c' -> c' = apply_item c m.
 Proof.
   intros c m c'. unfold step_actor, get_ident, apply_item, mkey.
@@ -276,14 +289,14 @@ Proof.
   - apply (lib_ok m (fun o => set_lib o c)); auto.
   - crush_m m; inversion H; auto.
   - apply (chan_ok m (fun o => set_chan o c)); auto.
-  - unfold edit_den. destruct (a_mac c); [destruct (edit_parse (a_edit c) m)|destruct (edit_parse_family (a_edit c) m)]; simpl in H; inversion H; auto.
+  - unfold edit_den. destruct (edit_parse (a_edit c) m); simpl in H; inversion H; auto.
   - crush_m m; inversion H; auto.
   - apply (file_ok m (fun o => set_file o c)); auto.
   - destruct (a_mac c); try discriminate. apply (name_ok m (fun o => set_first o c)); auto.
   - crush_m m; inversion H; auto.
   - destruct (a_filter c); try discriminate. apply bind_ok in H. destruct H as [f [H1 H2]]. apply filter_ok in H1. inversion H2; subst; auto.
   - destruct (a_filter c); try discriminate. apply bind_ok in H. destruct H as [f [H1 H2]]. apply filter_ok in H1. inversion H2; subst; auto.
-  - inversion H; auto.
+  - crush_m m; inversion H; auto.
   - discriminate.
   - discriminate.
   - discriminate.
@@ -291,25 +304,24 @@ Proof.
   - discriminate.
 Qed.
 
-Lemma step_actor_isok : forall c m, k_leaf_item m = false -> (a_edit c = edit0 \/ is_key KEdit m = false) ->
+Lemma step_actor_isok : forall c m, (a_edit c = edit0 \/ is_key KEdit m = false) ->
   is_ok (step_actor fexists c m) = item_valid fexists (a_mac c) m && filter_free c m.
 Proof.
-  intros c m. unfold step_actor, get_ident, item_valid, filter_free, is_filter_key, is_key, k_leaf_item, mkey.
+  intros c m. unfold step_actor, get_ident, item_valid, filter_free, is_filter_key, is_key, mkey.
   destruct (mpath m) as [|x [|y r]] eqn:P; simpl; auto.
-  destruct (classify x) eqn:K; simpl; intros KL ED; try rewrite andb_true_r; auto.
+  destruct (classify x) eqn:K; simpl; intros ED; try rewrite andb_true_r; auto.
   - apply (name_isok m (fun o => set_name (Some o) c)).
   - apply (lib_isok m (fun o => set_lib o c)).
   - crush_m m.
   - apply (chan_isok m (fun o => set_chan o c)).
-  - destruct ED as [ED|ED]; try discriminate. rewrite ED. unfold v_edit.
-    destruct (a_mac c); [destruct (edit_parse edit0 m)|destruct (edit_parse_family edit0 m)]; auto.
+  - destruct ED as [ED|ED]; try discriminate. rewrite ED. unfold v_edit. destruct (edit_parse edit0 m); auto.
   - crush_m m.
   - apply (file_isok m (fun o => set_file (Some o) c)).
   - destruct (a_mac c); auto. apply (name_isok m (fun o => set_first (Some o) c)).
   - crush_m m.
-  - destruct (a_filter c); simpl. rewrite andb_false_r; auto. rewrite andb_true_r. rewrite <- (filter_isok m true KL). destruct (filter_parse m true); auto.
-  - destruct (a_filter c); simpl. rewrite andb_false_r; auto. rewrite andb_true_r. rewrite <- (filter_isok m false KL). destruct (filter_parse m false); auto.
-  - apply negb_false_iff in KL. auto.
+  - destruct (a_filter c); simpl. rewrite andb_false_r; auto. rewrite andb_true_r. rewrite <- (filter_isok m true). destruct (filter_parse m true); auto.
+  - destruct (a_filter c); simpl. rewrite andb_false_r; auto. rewrite andb_true_r. rewrite <- (filter_isok m false). destruct (filter_parse m false); auto.
+  - apply word_isok.
 Qed.
 
 (* ---------- frame facts about apply_item ---------- *)
@@ -331,16 +343,15 @@ Definition filt_ok (c : acfg) (l : list meta) : bool :=
 Lemma has_key_cons_false : forall k m l, has_key k (m :: l) = false -> is_key k m = false /\ has_key k l = false.
 Proof. intros. unfold has_key in *. simpl in H. apply orb_false_elim in H. auto. Qed.
 
-Lemma fold_actor_isok : forall l c, NoDup (map mpath l) -> existsb k_leaf_item l = false ->
+Lemma fold_actor_isok : forall l c, NoDup (map mpath l) ->
   (a_edit c = edit0 \/ has_key KEdit l = false) ->
   is_ok (fold_res (step_actor fexists) l c) = forallb (item_valid fexists (a_mac c)) l && filt_ok c l.
 Proof.
-  induction l as [|m l IH]; intros c ND KL ED.
+  induction l as [|m l IH]; intros c ND ED.
   - simpl. unfold filt_ok, nf. simpl. destruct (a_filter c); auto.
-  - simpl in KL. apply orb_false_elim in KL. destruct KL as [KL1 KL2].
-    assert (ED1 : a_edit c = edit0 \/ is_key KEdit m = false).
+  - assert (ED1 : a_edit c = edit0 \/ is_key KEdit m = false).
     { destruct ED as [ED|ED]; auto. apply has_key_cons_false in ED. tauto. }
-    pose proof (step_actor_isok c m KL1 ED1) as SI.
+    pose proof (step_actor_isok c m ED1) as SI.
     simpl. destruct (step_actor fexists c m) as [c'| |] eqn:S; simpl in *.
     + pose proof (step_actor_ok c m c' S) as E. symmetry in SI. apply andb_prop in SI. destruct SI as [IV FF].
       rewrite IV. simpl. rewrite IH.
@@ -350,7 +361,6 @@ Proof.
            destruct (a_filter (apply_item c m)); try congruence. simpl. destruct (List.length (filter is_filter_key l)); auto.
         -- rewrite (apply_item_filter_other c m FK). auto.
       * inversion ND; auto.
-      * auto.
       * subst c'. destruct (is_key KEdit m) eqn:IK.
         -- right. unfold is_key in IK. apply okey_beq_eq in IK. apply (has_key_false_NoDup KEdit m l); auto. discriminate.
         -- rewrite (apply_item_edit c m IK). destruct ED as [ED|ED]; [auto | right; exact ED].
@@ -392,9 +402,9 @@ Lemma fold_left_mac : forall l c, a_mac (fold_left apply_item l c) = a_mac c.
 Proof. induction l; simpl; intros; auto. rewrite IHl. apply apply_item_mac. Qed.
 
 Lemma den_edit : forall l c, NoDup (map mpath l) ->
-  a_edit (denote_actor_from c l) = match find_key KEdit l with Some m => edit_den (a_mac c) (a_edit c) m | None => a_edit c end.
+  a_edit (denote_actor_from c l) = match find_key KEdit l with Some m => edit_den (a_edit c) m | None => a_edit c end.
 Proof.
-  intros. unfold denote_actor_from. apply (fold_field a_edit KEdit (fun mc e m => edit_den mc e m)); auto. discriminate.
+  intros. unfold denote_actor_from. apply (fold_field a_edit KEdit (fun _ e m => edit_den e m)); auto. discriminate.
   intros c0 m. unfold apply_item, is_key. destruct (mkey m); simpl; auto.
 Qed.
 
@@ -462,10 +472,10 @@ Qed.
 Lemma edit_active_edit0 : edit_active edit0 = false.
 Proof. reflexivity. Qed.
 
-Lemma parse_nested_actor_isok : forall l c, existsb k_leaf_item l = false -> a_edit c = edit0 -> a_filter c = None ->
+Lemma parse_nested_actor_isok : forall l c, a_edit c = edit0 -> a_filter c = None ->
   is_ok (parse_nested_actor fexists c l) = nodupb (map mpath l) && forallb (item_valid fexists (a_mac c)) l && Nat.leb (nf l) 1.
 Proof.
-  intros l c KL E0 F0. unfold parse_nested_actor. rewrite check_path_set_nil. destruct (nodupb (map mpath l)) eqn:ND; simpl; auto.
+  intros l c E0 F0. unfold parse_nested_actor. rewrite check_path_set_nil. destruct (nodupb (map mpath l)) eqn:ND; simpl; auto.
   rewrite fold_actor_isok; auto. unfold filt_ok. rewrite F0. auto. apply nodupb_NoDup; auto.
 Qed.
 
@@ -483,10 +493,10 @@ Proof.
   destruct (edit_active (a_edit a)); simpl. destruct (a_file a); simpl; auto. destruct (fcount s); simpl; auto. rewrite M; auto. rewrite M; auto.
 Qed.
 
-Lemma markers_spec : forall l mc c, NoDup (map mpath l) -> a_mac c = mc -> a_edit c = edit0 ->
-  edit_active (a_edit (denote_actor_from c l)) = markers mc l.
+Lemma markers_spec : forall l c, NoDup (map mpath l) -> a_edit c = edit0 ->
+  edit_active (a_edit (denote_actor_from c l)) = markers l.
 Proof.
-  intros. rewrite den_edit; auto. unfold markers. rewrite H0, H1. destruct (find_key KEdit l); auto.
+  intros. rewrite den_edit; auto. unfold markers. rewrite H0. destruct (find_key KEdit l); auto.
 Qed.
 
 Lemma file_one_spec : forall l c, NoDup (map mpath l) -> a_file c = None ->
@@ -495,14 +505,14 @@ Proof.
   intros. rewrite den_file; auto. unfold file_one. rewrite H0. destruct (find_key KFile l); auto.
 Qed.
 
-Theorem actor_accept_iff_valid : forall l, existsb k_leaf_item l = false ->
+Theorem actor_accept_iff_valid : forall l,
   is_ok (parse_args fexists fcount Actor l) = valid_actor fexists fcount l.
 Proof.
-  intros l KL. unfold parse_args, valid_actor.
-  pose proof (parse_nested_actor_isok l (set_mac Actor acfg0) KL eq_refl eq_refl) as H. simpl in H.
+  intros l. unfold parse_args, valid_actor.
+  pose proof (parse_nested_actor_isok l (set_mac Actor acfg0) eq_refl eq_refl) as H. simpl in H.
   destruct (parse_nested_actor fexists (set_mac Actor acfg0) l) as [a| |] eqn:P; simpl in *; rewrite <- H; simpl; auto.
   apply parse_nested_actor_den in P. destruct P as [P ND]. subst a.
-  rewrite cross_check_actor_isok. rewrite (markers_spec l Actor); auto. rewrite file_one_spec; auto.
+  rewrite cross_check_actor_isok. rewrite (markers_spec l); auto. rewrite file_one_spec; auto.
   unfold denote_actor_from. rewrite fold_left_mac. auto.
 Qed.
 
@@ -513,41 +523,47 @@ Proof.
   inversion H3; subst c1. apply parse_nested_actor_den in H1. destruct H1 as [H1 ND]. subst a.
   unfold cross_check, cfg_active in H2. simpl in H2. unfold denote_actor_from in H2. rewrite fold_left_mac in H2. simpl in H2.
   rewrite orb_false_r in H2. unfold denote_actor. fold (denote_actor_from (set_mac Actor acfg0) l) in *.
-  rewrite (markers_spec l Actor) in H2; auto. destruct (markers Actor l).
+  rewrite (markers_spec l) in H2; auto. destruct (markers l).
   - destruct (a_file (denote_actor_from (set_mac Actor acfg0) l)); try discriminate. destruct (fcount s); try discriminate.
     simpl in H2. unfold denote_actor_from in H2. rewrite fold_left_mac in H2. simpl in H2. inversion H2; auto.
   - simpl in H2. unfold denote_actor_from in H2. rewrite fold_left_mac in H2. simpl in H2. inversion H2; auto.
 Qed.
 
-(* ---------- never Panic outside the name-not-ident class ---------- *)
+(* ---------- never Panic ---------- *)
 Lemma get_list_np : forall m h, get_list m h <> Panic.
 Proof. destruct m, h; simpl; discriminate. Qed.
+Lemma get_list_ne_np : forall m h, get_list_ne m h <> Panic.
+Proof. intros. unfold get_list_ne. apply bind_not_panic. apply get_list_np. intros [[|x r]|]; discriminate. Qed.
 Lemma get_ident_np : forall m, get_ident m <> Panic.
 Proof. intros. unfold get_ident. destruct (mpath m) as [|x [|y r]]; discriminate. Qed.
+Lemma expect_word_np : forall m, expect_word m <> Panic.
+Proof. destruct m; discriminate. Qed.
 Lemma abort_if_np : forall m, abort_if_is_file m <> Panic.
 Proof. intros. unfold abort_if_is_file. destruct (is_ident (mpath m) "file"); discriminate. Qed.
 
 Lemma add_if_unique_np : forall v m f, add_if_unique v m f <> Panic.
 Proof.
-  intros. unfold add_if_unique. apply bind_not_panic. apply get_ident_np. intros. destruct v; try discriminate.
+  intros. unfold add_if_unique. apply bind_not_panic. apply expect_word_np. intros _.
+  apply bind_not_panic. apply get_ident_np. intros. destruct v; try discriminate.
   destruct (existsb (fun p => String.eqb a (fst p)) l); discriminate.
 Qed.
 
 Lemma get_file_list_np : forall m, get_file_list m <> Panic.
-Proof. intros. unfold get_file_list. apply bind_not_panic. apply get_list_np. intros [l|]; discriminate. Qed.
+Proof. intros. unfold get_file_list. apply bind_not_panic. apply get_list_ne_np. intros [l|]; discriminate. Qed.
 
 Lemma nested_idents_np : forall os m f, nested_idents os m f <> Panic.
 Proof.
-  intros. unfold nested_idents. apply bind_not_panic. apply get_list_np. intros [l|]; try discriminate.
+  intros. unfold nested_idents. apply bind_not_panic. apply get_list_ne_np. intros [l|]; try discriminate.
   apply bind_not_panic; try (intros; discriminate). apply fold_res_no_panic. intros s x _.
   destruct (is_ident (mpath x) "file"). 2: apply add_if_unique_np.
-  apply bind_not_panic. apply get_list_np. intros [fl|]. 2: apply add_if_unique_np.
+  apply bind_not_panic. apply get_list_ne_np. intros [fl|]. 2: apply add_if_unique_np.
   apply fold_res_no_panic. intros s' y _. destruct f. discriminate. apply add_if_unique_np.
 Qed.
 
 Lemma sol_nested_np : forall e m sol f, sol_nested e m sol f <> Panic.
 Proof.
-  intros. unfold sol_nested. destruct (is_ident (mpath m) "def"). destruct (t_def (sel sol e)); discriminate.
+  intros. unfold sol_nested. destruct (is_ident (mpath m) "def").
+  apply bind_not_panic. apply expect_word_np. intros _. destruct (t_def (sel sol e)); discriminate.
   destruct (is_ident (mpath m) "imp"). destruct (t_imp (sel sol e)); try discriminate.
   apply bind_not_panic. apply nested_idents_np. intros; discriminate.
   destruct (is_ident (mpath m) "trt"). destruct (t_trt (sel sol e)); try discriminate.
@@ -559,7 +575,7 @@ Proof.
   intros. unfold parse_sol. apply bind_not_panic.
   - destruct (is_ident (mpath m) "script"). destruct (is_none (e_script e)); discriminate.
     destruct (is_ident (mpath m) "live"). destruct (is_none (e_live e)); discriminate. discriminate.
-  - intros sol. apply bind_not_panic. apply get_list_np. intros [l|]; try discriminate.
+  - intros sol. apply bind_not_panic. apply get_list_ne_np. intros [l|]; try discriminate.
     apply fold_res_no_panic. intros s x _. destruct (is_ident (mpath x) "file"). 2: apply sol_nested_np.
     destruct f. discriminate. apply bind_not_panic. apply get_file_list_np. intros fl.
     apply fold_res_no_panic. intros s' y _. apply bind_not_panic. apply abort_if_np. intros. apply sol_nested_np.
@@ -567,7 +583,7 @@ Qed.
 
 Lemma edit_parse_np : forall e m, edit_parse e m <> Panic.
 Proof.
-  intros. unfold edit_parse. apply bind_not_panic. apply get_list_np. intros [l|]; try discriminate.
+  intros. unfold edit_parse. apply bind_not_panic. apply get_list_ne_np. intros [l|]; try discriminate.
   assert (G : forall l0 e0, fold_res (fun (e : edit) (x : meta) =>
         if is_ident (mpath x) "file" then fl <- get_file_list x ;; fold_res (fun (e : edit) (y : meta) => _ <- abort_if_is_file y ;; parse_sol e y true) fl e
         else parse_sol e x false) l0 e0 <> Panic).
@@ -576,36 +592,35 @@ Proof.
     apply bind_not_panic. apply abort_if_np. intros. apply parse_sol_np. }
   destruct l as [|mv [|m2 r]]; try apply G.
   destruct (is_ident (mpath mv) "file"). 2: apply parse_sol_np.
-  apply bind_not_panic. apply get_list_np. intros [fl|]; try discriminate.
+  apply bind_not_panic. apply get_list_ne_np. intros [fl|]; try discriminate.
   apply fold_res_no_panic. intros s' y _. apply bind_not_panic. apply abort_if_np. intros. apply parse_sol_np.
 Qed.
 
 Lemma edit_parse_family_np : forall e m, edit_parse_family e m <> Panic.
 Proof.
-  intros. unfold edit_parse_family. apply bind_not_panic. apply get_list_np. intros [l|]; try discriminate.
-  destruct l as [|mv [|m2 r]]; try apply sol_nested_np.
+  intros. unfold edit_parse_family. apply bind_not_panic. apply get_list_ne_np. intros [l|]; try discriminate.
+  assert (G : forall l0 e0, fold_res (fun (e : edit) (x : meta) =>
+        if is_ident (mpath x) "file" then fl <- get_file_list x ;; fold_res (fun (e : edit) (y : meta) => _ <- abort_if_is_file y ;; sol_nested e y false true) fl e
+        else sol_nested e x false false) l0 e0 <> Panic).
+  { intros. apply fold_res_no_panic. intros s x _. destruct (is_ident (mpath x) "file"). 2: apply sol_nested_np.
+    apply bind_not_panic. apply get_file_list_np. intros fl. apply fold_res_no_panic. intros s' y _.
+    apply bind_not_panic. apply abort_if_np. intros. apply sol_nested_np. }
+  destruct l as [|mv [|m2 r]]; try apply G.
   destruct (is_ident (mpath mv) "file"). 2: apply sol_nested_np.
-  apply bind_not_panic. apply get_list_np. intros [fl|]; try discriminate.
+  apply bind_not_panic. apply get_list_ne_np. intros [fl|]; try discriminate.
   apply fold_res_no_panic. intros s' y _. apply bind_not_panic. apply abort_if_np. intros. apply sol_nested_np.
 Qed.
 
-Lemma name_np : forall m (g : string -> acfg), k_name_item m = false -> (mkey m = KName \/ mkey m = KFirstName) ->
-  (s <- get_lit_str m ;; x <- format_ident s ;; Ok (g x)) <> Panic.
+Lemma name_np : forall m (g : string -> acfg), (s <- get_lit_str m ;; x <- format_ident s ;; Ok (g x)) <> Panic.
 Proof.
-  intros m g K MK. unfold k_name_item in K. assert (K' : match v_str m with Some s => negb (String.eqb s "") && negb (is_ident_str s) | None => false end = false).
-  { destruct MK as [MK|MK]; rewrite MK in K; auto. }
-  destruct (get_lit_str m) eqn:E; simpl; try discriminate.
-  - apply get_lit_str_ok in E. destruct E as [E1 E2]. rewrite E1, E2 in K'. simpl in K'. apply negb_false_iff in K'.
-    unfold format_ident. rewrite K'. discriminate.
-  - exfalso. apply (get_lit_str_not_panic m); auto.
+  intros. apply bind_not_panic. apply get_lit_str_not_panic. intros s. apply bind_not_panic.
+  unfold format_ident. destruct (is_ident_str s); discriminate. intros; discriminate.
 Qed.
 
-Lemma step_actor_np : forall c m, k_name_item m = false -> step_actor fexists c m <> Panic.
+Lemma parse_shared_np : forall c m k r, parse_shared fexists c m k = Some r -> r <> Panic.
 Proof.
-  intros c m KN. unfold step_actor, get_ident. pose proof (eq_refl (mkey m)) as MK. unfold mkey at 2 in MK.
-  destruct (mpath m) as [|x [|y r]] eqn:P; simpl; try discriminate.
-  destruct (classify x) eqn:K; simpl; try discriminate.
-  - apply name_np; auto.
+  intros c m k r. destruct k; simpl; intros H; inversion H; subst r; clear H.
+  - apply name_np.
   - apply bind_not_panic. apply get_lit_str_not_panic. intros. apply bind_not_panic. unfold lib_of.
     destruct (String.eqb a "std"); try discriminate. destruct (String.eqb a "smol"); try discriminate.
     destruct (String.eqb a "tokio"); try discriminate. destruct (String.eqb a "async_std"); discriminate. intros; discriminate.
@@ -617,17 +632,30 @@ Proof.
   - destruct m; discriminate.
   - apply bind_not_panic. unfold meta_get_path. apply bind_not_panic. apply get_lit_str_not_panic. intros. destruct (fexists a); discriminate.
     intros; discriminate.
-  - destruct (a_mac c); try discriminate. apply name_np; auto.
+Qed.
+
+Lemma step_actor_np : forall c m, step_actor fexists c m <> Panic.
+Proof.
+  intros c m. unfold step_actor. apply bind_not_panic. apply get_ident_np. intros x.
+  destruct (classify x); simpl; try discriminate.
+  - apply (parse_shared_np c m KName _ eq_refl).
+  - apply (parse_shared_np c m KLib _ eq_refl).
+  - apply (parse_shared_np c m KShow _ eq_refl).
+  - apply (parse_shared_np c m KChannel _ eq_refl).
+  - apply bind_not_panic. apply edit_parse_np. intros; discriminate.
+  - apply (parse_shared_np c m KDebut _ eq_refl).
+  - apply (parse_shared_np c m KFile _ eq_refl).
+  - destruct (a_mac c); try discriminate. apply name_np.
   - destruct m; discriminate.
   - destruct (a_filter c); try discriminate. apply bind_not_panic. apply filter_not_panic. intros; discriminate.
   - destruct (a_filter c); try discriminate. apply bind_not_panic. apply filter_not_panic. intros; discriminate.
+  - apply bind_not_panic. apply expect_word_np. intros; discriminate.
 Qed.
 
-Lemma parse_nested_actor_np : forall c l, existsb k_name_item l = false -> parse_nested_actor fexists c l <> Panic.
+Lemma parse_nested_actor_np : forall c l, parse_nested_actor fexists c l <> Panic.
 Proof.
   intros. unfold parse_nested_actor. destruct (check_path_set l []); try discriminate.
   apply fold_res_no_panic. intros s x I. apply step_actor_np.
-  destruct (k_name_item x) eqn:E; auto. assert (existsb k_name_item l = true). apply existsb_exists; eauto. congruence.
 Qed.
 
 Lemma cross_check_np : forall c, cross_check fcount c <> Panic.
@@ -637,33 +665,21 @@ Proof.
   - intros. destruct (a_mac (c_top a)); try discriminate. destruct (a_lib (c_top a)); discriminate.
 Qed.
 
-Lemma parse_shared_np : forall c m k r, k_name_item m = false -> mkey m = k -> parse_shared fexists c m k = Some r -> r <> Panic.
+Lemma step_family_np : forall st m, step_family fexists st m <> Panic.
 Proof.
-  intros c m k r KN MK. destruct k; simpl; intros H; inversion H; subst r; clear H.
-  - apply name_np; auto.
-  - apply bind_not_panic. apply get_lit_str_not_panic. intros. apply bind_not_panic. unfold lib_of.
-    destruct (String.eqb a "std"); try discriminate. destruct (String.eqb a "smol"); try discriminate.
-    destruct (String.eqb a "tokio"); try discriminate. destruct (String.eqb a "async_std"); discriminate. intros; discriminate.
-  - destruct m; discriminate.
-  - apply bind_not_panic. unfold get_lit. destruct m; try discriminate. destruct v; discriminate.
-    intros. apply bind_not_panic. unfold chan_of. destruct a; try discriminate. destruct ((0 <=? z)%Z && (z <=? usize_max)%Z); discriminate.
-    intros; discriminate.
-  - apply bind_not_panic. destruct (a_mac c). apply edit_parse_np. apply edit_parse_family_np. intros; discriminate.
-  - destruct m; discriminate.
-  - apply bind_not_panic. unfold meta_get_path. apply bind_not_panic. apply get_lit_str_not_panic. intros. destruct (fexists a); discriminate.
-    intros; discriminate.
+  intros [c mems] m. unfold step_family. apply bind_not_panic. apply get_ident_np. intros x.
+  destruct (classify x); simpl; try discriminate;
+    try (apply bind_not_panic; [apply expect_word_np | intros; discriminate]).
+  - apply bind_not_panic. apply (parse_shared_np c m KName _ eq_refl). intros; discriminate.
+  - apply bind_not_panic. apply (parse_shared_np c m KLib _ eq_refl). intros; discriminate.
+  - apply bind_not_panic. apply (parse_shared_np c m KShow _ eq_refl). intros; discriminate.
+  - apply bind_not_panic. apply (parse_shared_np c m KChannel _ eq_refl). intros; discriminate.
+  - apply bind_not_panic. apply (parse_shared_np c m KEdit _ eq_refl). intros; discriminate.
+  - apply bind_not_panic. apply (parse_shared_np c m KDebut _ eq_refl). intros; discriminate.
+  - apply bind_not_panic. apply (parse_shared_np c m KFile _ eq_refl). intros; discriminate.
 Qed.
 
-Lemma step_family_np : forall st m, k_name_item m = false -> step_family fexists st m <> Panic.
-Proof.
-  intros [c mems] m KN. unfold step_family, get_ident. pose proof (eq_refl (mkey m)) as MK. unfold mkey at 2 in MK.
-  destruct (mpath m) as [|x [|y r]] eqn:P; simpl; try discriminate.
-  destruct (parse_shared fexists c m (classify x)) eqn:PS.
-  - apply bind_not_panic. apply (parse_shared_np c m (classify x)); auto. intros; discriminate.
-  - destruct (classify x); discriminate.
-Qed.
-
-Lemma parse_member_np : forall proto mem, existsb k_name_item (member_list mem) = false -> parse_member fexists proto mem <> Panic.
+Lemma parse_member_np : forall proto mem, parse_member fexists proto mem <> Panic.
 Proof.
   intros. unfold parse_member. destruct mem; simpl in *; try discriminate.
   apply bind_not_panic. apply parse_nested_actor_np; auto. intros. destruct (a_first a); discriminate.
@@ -689,20 +705,15 @@ Qed.
 Lemma existsb_false_In : forall {A} (f : A -> bool) l x, existsb f l = false -> In x l -> f x = false.
 Proof. intros. destruct (f x) eqn:E; auto. assert (existsb f l = true). apply existsb_exists; eauto. congruence. Qed.
 
-Theorem parse_args_never_panics : forall mc l, k_name l = false -> parse_args fexists fcount mc l <> Panic.
+Theorem parse_args_never_panics : forall mc l, parse_args fexists fcount mc l <> Panic.
 Proof.
-  intros mc l KN. unfold k_name in KN. apply orb_false_elim in KN. destruct KN as [KN1 KN2].
-  unfold parse_args. apply bind_not_panic. 2: apply cross_check_np.
+  intros mc l. unfold parse_args. apply bind_not_panic. 2: apply cross_check_np.
   destruct mc.
   - apply bind_not_panic. apply parse_nested_actor_np; auto. intros; discriminate.
   - unfold parse_nested_family. destruct (check_path_set l [["actor"]]); try discriminate.
-    destruct (fold_res (step_family fexists) l (set_mac Family acfg0, [])) as [[c1 mems]| |] eqn:F; simpl; try discriminate.
-    + apply fold_family_mems in F. simpl in F. subst mems. destruct (members_of l) eqn:ML; try discriminate.
-      rewrite <- ML. apply bind_not_panic; try (intros; discriminate).
-      apply fold_res_no_panic. intros s x I. apply bind_not_panic; try (intros; discriminate).
-      apply parse_member_np. unfold members_of in I. apply filter_In in I. destruct I as [I1 I2].
-      pose proof (existsb_false_In _ _ _ KN2 I1) as E. unfold k_name_member in E. rewrite I2 in E. auto.
-    + exfalso. revert F. apply fold_res_no_panic. intros s x I. apply step_family_np. apply (existsb_false_In _ _ _ KN1 I).
+    apply bind_not_panic. apply fold_res_no_panic. intros s x _. apply step_family_np.
+    intros [c1 mems]. destruct mems; try discriminate. apply bind_not_panic; try (intros; discriminate).
+    apply fold_res_no_panic. intros s x _. apply bind_not_panic; try (intros; discriminate). apply parse_member_np.
 Qed.
 
 (* ---------- example ---------- *)
@@ -722,31 +733,28 @@ Proof.
   unfold leaf_name, is_ident. destruct (mpath a) as [|x [|y r]]; simpl in *; auto; discriminate.
 Qed.
 
-Lemma forallb_and : forall {A} (f g : A -> bool) l, forallb (fun x => f x && g x) l = forallb f l && forallb g l.
-Proof. induction l; simpl; auto. rewrite IHl. destruct (f a), (g a); simpl; auto. rewrite andb_false_r; auto. Qed.
-
-Lemma step_example_isok : forall e m, k_example_item m = false -> is_ok (step_example fexists e m) = ex_item_valid fexists m.
+Lemma step_example_isok : forall e m, is_ok (step_example fexists e m) = ex_item_valid fexists m.
 Proof.
-  intros e m. unfold step_example, ex_item_valid, k_example_item, xclassify.
-  destruct (is_ident (mpath m) "main"). intros H. apply negb_false_iff in H. rewrite H. auto.
-  destruct (is_ident (mpath m) "path"). intros _. apply (file_isok m (fun s => set_file (Some s) acfg0)) || idtac.
+  intros e m. unfold step_example, ex_item_valid, xclassify.
+  destruct (is_ident (mpath m) "main"). destruct m; auto.
+  destruct (is_ident (mpath m) "path").
   { unfold v_file, meta_get_path. destruct (get_lit_str m) eqn:E; simpl.
     - apply get_lit_str_ok in E. destruct E as [E1 E2]. rewrite E1, E2. simpl. destruct (fexists a); auto.
     - pose proof (get_lit_str_isok m) as H. rewrite E in H. simpl in H. destruct (v_str m); auto. destruct (String.eqb s ""); simpl in *; auto; discriminate.
     - exfalso. apply (get_lit_str_not_panic m); auto. }
-  destruct (is_ident (mpath m) "expand"). 2: discriminate.
-  intros H. unfold v_expand. destruct m as [p|p l|p|p v]; simpl; auto.
-  rewrite get_idents_spec. rewrite forallb_and. rewrite (bare_single l H).
+  destruct (is_ident (mpath m) "expand"); auto.
+  unfold v_expand. destruct m as [p|p l|p|p v]; simpl; auto.
+  rewrite words_fold. rewrite get_idents_spec. rewrite forallb_and. rewrite bare_words.
+  destruct (forallb v_flag l); simpl; auto.
   destruct (forallb (fun m => single (mpath m)) l) eqn:E; simpl; auto.
   rewrite <- (expand_names l E). pose proof (macs_fold (map leaf_name l) []) as MF.
   destruct (fold_res _ (map leaf_name l) []); simpl in *; auto.
 Qed.
 
-Lemma fold_example_isok : forall l e, existsb k_example_item l = false ->
-  is_ok (fold_res (step_example fexists) l e) = forallb (ex_item_valid fexists) l.
+Lemma fold_example_isok : forall l e, is_ok (fold_res (step_example fexists) l e) = forallb (ex_item_valid fexists) l.
 Proof.
-  induction l as [|m l IH]; simpl; intros; auto. apply orb_false_elim in H. destruct H as [H1 H2].
-  rewrite <- (step_example_isok e m H1). destruct (step_example fexists e m); simpl; auto.
+  induction l as [|m l IH]; simpl; intros; auto.
+  rewrite <- (step_example_isok e m). destruct (step_example fexists e m); simpl; auto.
 Qed.
 
 Definition is_xpath (m : meta) : bool := match xclassify m with XPath => true | _ => false end.
@@ -758,11 +766,11 @@ Lemma step_example_frame : forall e m e', step_example fexists e m = Ok e' ->
   (is_some (x_path e') = is_xpath m || is_some (x_path e)) /\ (x_main e' = is_xmain m || x_main e).
 Proof.
   intros e m e'. unfold step_example, is_xpath, is_xmain, xclassify.
-  destruct (is_ident (mpath m) "main"). intros H; inversion H; simpl; auto.
+  destruct (is_ident (mpath m) "main"). intros H. apply bind_ok in H. destruct H as [u [_ H]]. inversion H; simpl; auto.
   destruct (is_ident (mpath m) "path"). intros H. apply bind_ok in H. destruct H as [s [_ H]]. inversion H; simpl; auto.
   destruct (is_ident (mpath m) "expand"). intros H. apply bind_ok in H. destruct H as [o [_ H]]. destruct o; try discriminate.
-  apply bind_ok in H. destruct H as [ids [_ H]]. apply bind_ok in H. destruct H as [ms [_ H]]. inversion H; simpl; auto.
-  intros H; inversion H; subst; auto.
+  apply bind_ok in H. destruct H as [u [_ H]]. apply bind_ok in H. destruct H as [ids [_ H]]. apply bind_ok in H. destruct H as [ms [_ H]]. inversion H; simpl; auto.
+  discriminate.
 Qed.
 
 Lemma fold_example_frame : forall l e e', fold_res (step_example fexists) l e = Ok e' ->
@@ -778,10 +786,10 @@ Proof. intros. unfold has_xkey, is_xpath. induction l; simpl; auto; try (rewrite
 Lemma has_xmain : forall l, has_xkey XMain l = existsb is_xmain l.
 Proof. intros. unfold has_xkey, is_xmain. induction l; simpl; auto; try (rewrite IHl; destruct (xclassify a); auto). Qed.
 
-Theorem example_accept_iff_valid : forall l, k_example l = false -> is_ok (parse_example fexists l) = valid_example fexists l.
+Theorem example_accept_iff_valid : forall l, is_ok (parse_example fexists l) = valid_example fexists l.
 Proof.
-  intros l K. unfold parse_example, valid_example. rewrite check_path_set_nil. destruct (nodupb (map mpath l)); simpl; auto.
-  rewrite <- (fold_example_isok l ecfg0 K). destruct (fold_res (step_example fexists) l ecfg0) eqn:F; simpl; auto.
+  intros l. unfold parse_example, valid_example. rewrite check_path_set_nil. destruct (nodupb (map mpath l)); simpl; auto.
+  rewrite <- (fold_example_isok l ecfg0). destruct (fold_res (step_example fexists) l ecfg0) eqn:F; simpl; auto.
   apply fold_example_frame in F. destruct F as [F _]. simpl in F. rewrite orb_false_r in F. rewrite has_xpath. rewrite <- F.
   destruct (x_path a); auto.
 Qed.
@@ -791,10 +799,12 @@ Proof.
   intros. unfold parse_example. destruct (check_path_set l []); try discriminate.
   apply bind_not_panic. 2: intros a; destruct (x_path a); discriminate.
   apply fold_res_no_panic. intros e m _. unfold step_example.
-  destruct (is_ident (mpath m) "main"); try discriminate. destruct (is_ident (mpath m) "path").
+  destruct (is_ident (mpath m) "main"). apply bind_not_panic. apply expect_word_np. intros; discriminate.
+  destruct (is_ident (mpath m) "path").
   apply bind_not_panic. unfold meta_get_path. apply bind_not_panic. apply get_lit_str_not_panic. intros; destruct (fexists a); discriminate. intros; discriminate.
   destruct (is_ident (mpath m) "expand"); try discriminate.
-  apply bind_not_panic. apply get_list_np. intros [ml|]; try discriminate. rewrite get_idents_spec.
+  apply bind_not_panic. apply get_list_np. intros [ml|]; try discriminate. rewrite words_fold. rewrite get_idents_spec.
+  destruct (forallb v_flag ml); simpl; try discriminate.
   destruct (forallb (fun m0 => single (mpath m0)) ml); simpl; try discriminate.
   apply bind_not_panic; try (intros; discriminate). apply fold_res_no_panic. intros. destruct (mac_from_ident x); discriminate.
 Qed.
@@ -807,39 +817,39 @@ Proof.
 Qed.
 
 (* ---------- family: one step, the loop ---------- *)
-Lemma step_family_ok : forall c ms m c' ms', step_family fexists (c, ms) m = Ok (c', ms') -> c' = apply_fam_item c m.
+Lemma step_family_ok : forall c ms m c' ms', a_mac c = Family -> step_family fexists (c, ms) m = Ok (c', ms') -> c' = apply_fam_item c m.
 Proof.
-  intros c ms m c' ms'. unfold step_family, get_ident, apply_fam_item, apply_item, mkey.
+  intros c ms m c' ms' MC. unfold step_family, get_ident, apply_fam_item, apply_item, mkey.
   destruct (mpath m) as [|x [|y r]] eqn:P; simpl; try discriminate.
   destruct (classify x) eqn:K; simpl; intros H; try discriminate;
-    try (apply bind_ok in H; destruct H as [c1 [H1 H2]]; inversion H2; subst c1 ms').
+    try (apply bind_ok in H; destruct H as [c1 [H1 H2]]; inversion H2; subst ms'; try subst c1).
   - apply (name_ok m (fun o => set_name o c)); auto.
   - apply (lib_ok m (fun o => set_lib o c)); auto.
   - crush_m m; inversion H1; auto.
   - apply (chan_ok m (fun o => set_chan o c)); auto.
-  - unfold edit_den. destruct (a_mac c); [destruct (edit_parse (a_edit c) m)|destruct (edit_parse_family (a_edit c) m)]; simpl in H1; inversion H1; auto.
+  - unfold edit_den_family. rewrite MC in H1. destruct (edit_parse_family (a_edit c) m); simpl in H1; inversion H1; auto.
   - crush_m m; inversion H1; auto.
   - apply (file_ok m (fun o => set_file o c)); auto.
   - inversion H; auto.
-  - inversion H; auto.
-  - inversion H; auto.
+  - auto.
+  - auto.
 Qed.
 
-Lemma step_family_isok : forall c ms m, k_leaf_item m = false -> (a_edit c = edit0 \/ is_key KEdit m = false) -> a_mac c = Family ->
+Lemma step_family_isok : forall c ms m, (a_edit c = edit0 \/ is_key KEdit m = false) -> a_mac c = Family ->
   is_ok (step_family fexists (c, ms) m) = fam_item_valid fexists m.
 Proof.
-  intros c ms m. unfold step_family, get_ident, fam_item_valid, is_key, k_leaf_item, mkey.
+  intros c ms m. unfold step_family, get_ident, fam_item_valid, is_key, mkey.
   destruct (mpath m) as [|x [|y r]] eqn:P; simpl; auto.
-  destruct (classify x) eqn:K; simpl; intros KL ED MC; auto.
+  destruct (classify x) eqn:K; simpl; intros ED MC; auto.
   - rewrite <- (name_isok m (fun o => set_name (Some o) c)). destruct (s <- get_lit_str m;; x0 <- format_ident s;; Ok (set_name (Some x0) c)); auto.
   - rewrite <- (lib_isok m (fun o => set_lib o c)). destruct (s <- get_lit_str m;; l <- lib_of s;; Ok (set_lib l c)); auto.
   - crush_m m.
   - rewrite <- (chan_isok m (fun o => set_chan o c)). destruct (v <- get_lit m;; ch <- chan_of v;; Ok (set_chan ch c)); auto.
-  - destruct ED as [ED|ED]; try discriminate. rewrite ED, MC. unfold v_edit. destruct (edit_parse_family edit0 m); auto.
+  - destruct ED as [ED|ED]; try discriminate. rewrite ED, MC. unfold v_edit_family. destruct (edit_parse_family edit0 m); auto.
   - crush_m m.
   - rewrite <- (file_isok m (fun o => set_file (Some o) c)). destruct (p <- meta_get_path fexists m;; Ok (set_file (Some p) c)); auto.
-  - apply negb_false_iff in KL. auto.
-  - apply negb_false_iff in KL. auto.
+  - crush_m m.
+  - crush_m m.
 Qed.
 
 Lemma apply_fam_item_mac : forall c m, a_mac (apply_fam_item c m) = a_mac c.
@@ -861,17 +871,16 @@ Qed.
 Lemma NoDup_filter_tail : forall (f : path -> bool) p l, NoDup (filter f (p :: l)) -> NoDup (filter f l).
 Proof. intros. simpl in H. destruct (f p); auto. inversion H; auto. Qed.
 
-Lemma fold_family_isok : forall l c ms, NoDup (filter naf (map mpath l)) -> existsb k_leaf_item l = false -> a_mac c = Family ->
+Lemma fold_family_isok : forall l c ms, NoDup (filter naf (map mpath l)) -> a_mac c = Family ->
   (a_edit c = edit0 \/ has_key KEdit l = false) ->
   is_ok (fold_res (step_family fexists) l (c, ms)) = forallb (fam_item_valid fexists) l.
 Proof.
-  induction l as [|m l IH]; intros c ms ND KL MC ED; cbn [fold_res forallb]; auto.
-  simpl in KL. apply orb_false_elim in KL. destruct KL as [KL1 KL2].
+  induction l as [|m l IH]; intros c ms ND MC ED; cbn [fold_res forallb]; auto.
   assert (ED1 : a_edit c = edit0 \/ is_key KEdit m = false).
   { destruct ED as [ED|ED]; auto. apply has_key_cons_false in ED. tauto. }
-  rewrite <- (step_family_isok c ms m KL1 ED1 MC).
+  rewrite <- (step_family_isok c ms m ED1 MC).
   destruct (step_family fexists (c, ms) m) as [[c' ms']| |] eqn:S; cbn [bind is_ok andb]; auto.
-  pose proof (step_family_ok c ms m c' ms' S) as E. subst c'. apply IH; auto.
+  pose proof (step_family_ok c ms m c' ms' MC S) as E. subst c'. apply IH; auto.
   - simpl in ND. apply (NoDup_filter_tail naf (mpath m)); auto.
   - rewrite apply_fam_item_mac; auto.
   - destruct (is_key KEdit m) eqn:IK.
@@ -879,10 +888,11 @@ Proof.
     + rewrite (apply_fam_item_edit c m IK). destruct ED as [ED|ED]; [auto | right; apply has_key_cons_false in ED; tauto].
 Qed.
 
-Lemma fold_family_den : forall l c ms c' ms', fold_res (step_family fexists) l (c, ms) = Ok (c', ms') -> c' = fold_left apply_fam_item l c.
+Lemma fold_family_den : forall l c ms c' ms', a_mac c = Family -> fold_res (step_family fexists) l (c, ms) = Ok (c', ms') -> c' = fold_left apply_fam_item l c.
 Proof.
-  induction l as [|m l IH]; simpl; intros c ms c' ms' H. inversion H; auto.
-  apply bind_ok in H. destruct H as [[c1 ms1] [H1 H2]]. apply step_family_ok in H1. subst c1. apply IH in H2. auto.
+  induction l as [|m l IH]; simpl; intros c ms c' ms' MC H. inversion H; auto.
+  apply bind_ok in H. destruct H as [[c1 ms1] [H1 H2]]. apply step_family_ok in H1; auto. subst c1. apply IH in H2. auto.
+  rewrite apply_fam_item_mac; auto.
 Qed.
 
 (* ---------- family: fields of the top configuration ---------- *)
@@ -925,9 +935,9 @@ Lemma fam_attr : forall l, a_attr (fam_fold l) = false.
 Proof. intros. unfold fam_fold. rewrite (fold_field_frame apply_fam_item a_attr). auto. intros. unfold apply_fam_item, apply_item. destruct (mkey m); auto. Qed.
 
 Lemma fam_edit : forall l, NoDup (filter naf (map mpath l)) ->
-  a_edit (fam_fold l) = match find_key KEdit l with Some m => edit_den Family edit0 m | None => edit0 end.
+  a_edit (fam_fold l) = match find_key KEdit l with Some m => edit_den_family edit0 m | None => edit0 end.
 Proof.
-  intros. unfold fam_fold. rewrite (fold_field_gen apply_fam_item a_edit KEdit (fun mc e m => edit_den mc e m) apply_fam_item_mac); auto.
+  intros. unfold fam_fold. rewrite (fold_field_gen apply_fam_item a_edit KEdit (fun _ e m => edit_den_family e m) apply_fam_item_mac); auto.
   intros c m. unfold apply_fam_item, apply_item, is_key. destruct (mkey m); simpl; auto.
   apply uniq_key_f; auto; discriminate.
 Qed.
@@ -984,10 +994,10 @@ Proof.
 Qed.
 
 Lemma parse_member_isok : forall proto mem, a_edit proto = edit0 -> a_filter proto = None -> a_mac proto = Family -> a_first proto = None ->
-  existsb k_leaf_item (member_list mem) = false -> is_ok (parse_member fexists proto mem) = member_valid fexists mem.
+  is_ok (parse_member fexists proto mem) = member_valid fexists mem.
 Proof.
-  intros proto mem E0 F0 M0 N0 KL. unfold parse_member, member_valid. destruct mem as [p|p ml|p|p v]; simpl in *; auto.
-  pose proof (parse_nested_actor_isok ml proto KL E0 F0) as H. rewrite M0 in H.
+  intros proto mem E0 F0 M0 N0. unfold parse_member, member_valid. destruct mem as [p|p ml|p|p v]; simpl in *; auto.
+  pose proof (parse_nested_actor_isok ml proto E0 F0) as H. rewrite M0 in H.
   destruct (parse_nested_actor fexists proto ml) as [other| |] eqn:P; simpl in *; rewrite <- H; simpl; auto.
   symmetry in H. apply andb_prop in H. destruct H as [H H3]. apply andb_prop in H. destruct H as [H1 H2].
   apply parse_nested_actor_den in P. destruct P as [P ND]. subst other. rewrite den_first; auto. rewrite N0.
@@ -1022,32 +1032,26 @@ Proof. induction l; simpl; intros; auto. rewrite H; auto. rewrite IHl; auto. Qed
 Lemma forallb_ext_in : forall {A} (f g : A -> bool) l, (forall x, In x l -> f x = g x) -> forallb f l = forallb g l.
 Proof. induction l; simpl; intros; auto. rewrite H; auto. rewrite IHl; auto. Qed.
 
-Lemma members_leaf : forall l, existsb k_leaf_member l = false -> forall mem, In mem (members_of l) -> existsb k_leaf_item (member_list mem) = false.
-Proof.
-  intros l K mem I. unfold members_of in I. apply filter_In in I. destruct I as [I1 I2].
-  pose proof (existsb_false_In _ _ _ K I1) as E. unfold k_leaf_member in E. rewrite I2 in E. auto.
-Qed.
-
 Lemma cps_actor : forall l, check_path_set l [["actor"]] = nodupb (filter not_actor_path (map mpath l)).
 Proof. intros. apply check_path_set_spec. Qed.
 
-Lemma parse_nested_family_isok : forall l, k_leaf l = false ->
+Lemma parse_nested_family_isok : forall l,
   is_ok (parse_nested_family fexists (set_mac Family acfg0) l) =
   nodupb (filter not_actor_path (map mpath l)) && forallb (fam_item_valid fexists) l
   && negb (match members_of l with [] => true | _ => false end) && forallb (member_valid fexists) (members_of l).
 Proof.
-  intros l K. unfold k_leaf in K. apply orb_false_elim in K. destruct K as [K1 K2].
+  intros l.
   unfold parse_nested_family. rewrite cps_actor. destruct (nodupb (filter not_actor_path (map mpath l))) eqn:ND; simpl; auto.
   apply nodupb_NoDup in ND.
-  rewrite <- (fold_family_isok l (set_mac Family acfg0) [] ND K1 eq_refl (or_introl eq_refl)).
+  rewrite <- (fold_family_isok l (set_mac Family acfg0) [] ND eq_refl (or_introl eq_refl)).
   destruct (fold_res (step_family fexists) l (set_mac Family acfg0, [])) as [[c1 mems]| |] eqn:F; simpl; auto.
-  pose proof (fold_family_den _ _ _ _ _ F) as E1. pose proof (fold_family_mems _ _ _ _ _ F) as E2. simpl in E2. subst mems.
+  pose proof (fold_family_den l (set_mac Family acfg0) [] c1 mems eq_refl F) as E1. pose proof (fold_family_mems _ _ _ _ _ F) as E2. simpl in E2. subst mems.
   fold (fam_fold l) in E1. subst c1. fold (fix_rcv (fam_fold l)).
   destruct (members_of l) as [|m0 mr] eqn:ML; [simpl; auto|]. cbv match beta. rewrite <- ML. cbn [negb andb].
   destruct (top_facts l) as [T1 [T2 [T3 T4]]].
   pose proof (fold_collect_isok (parse_member fexists (proto_of (fix_rcv (fam_fold l)))) (members_of l) []) as FC.
   destruct (fold_res _ (members_of l) []) eqn:FM; simpl in *; rewrite FC; apply forallb_ext_in; intros x I;
-    (apply parse_member_isok; [reflexivity | exact T2 | exact T1 | exact T3 | apply (members_leaf l K2); auto]).
+    (apply parse_member_isok; [reflexivity | exact T2 | exact T1 | exact T3]).
 Qed.
 
 Lemma parse_nested_family_den : forall l c, parse_nested_family fexists (set_mac Family acfg0) l = Ok c ->
@@ -1056,7 +1060,7 @@ Lemma parse_nested_family_den : forall l c, parse_nested_family fexists (set_mac
 Proof.
   intros l c. unfold parse_nested_family. rewrite cps_actor. destruct (nodupb (filter not_actor_path (map mpath l))) eqn:ND; try discriminate.
   apply nodupb_NoDup in ND. intros H. apply bind_ok in H. destruct H as [[c1 mems] [F H]].
-  pose proof (fold_family_den _ _ _ _ _ F) as E1. pose proof (fold_family_mems _ _ _ _ _ F) as E2. simpl in E2. subst mems.
+  pose proof (fold_family_den l (set_mac Family acfg0) [] c1 mems eq_refl F) as E1. pose proof (fold_family_mems _ _ _ _ _ F) as E2. simpl in E2. subst mems.
   fold (fam_fold l) in E1. subst c1. fold (fix_rcv (fam_fold l)) in H. change (fix_rcv (fam_fold l)) with (denote_family_top l) in H.
   destruct (members_of l) as [|m0 mr] eqn:ML; try discriminate. rewrite <- ML in *.
   apply bind_ok in H. destruct H as [ms [H1 H2]]. inversion H2; subst c. clear H2.
@@ -1075,7 +1079,7 @@ Proof.
   change (denote_family_top l) with (fix_rcv (fam_fold l)).
   destruct (top_facts l) as [T1 [T2 [T3 T4]]]. rewrite T1.
   destruct (fix_rcv_frame (fam_fold l)) as [A [B _]]. rewrite B. rewrite fam_edit; auto. f_equal.
-  - unfold markers. destruct (find_key KEdit l); auto.
+  - unfold markers_family. destruct (find_key KEdit l); auto.
   - rewrite existsb_map. apply existsb_ext_in. intros mem I. unfold denote_member. simpl.
     apply markers_spec; auto.
 Qed.
@@ -1090,11 +1094,11 @@ Proof.
   - rewrite M. destruct (a_lib (c_top c)); auto.
 Qed.
 
-Theorem family_accept_iff_valid : forall l, k_leaf l = false ->
+Theorem family_accept_iff_valid : forall l,
   is_ok (parse_args fexists fcount Family l) = valid_family fexists fcount l.
 Proof.
-  intros l K. unfold parse_args, valid_family.
-  pose proof (parse_nested_family_isok l K) as H.
+  intros l. unfold parse_args, valid_family.
+  pose proof (parse_nested_family_isok l) as H.
   destruct (parse_nested_family fexists (set_mac Family acfg0) l) as [c| |] eqn:P; simpl in *; rewrite <- H; simpl; auto.
   apply parse_nested_family_den in P. destruct P as [P [ND NM]]. subst c.
   destruct (top_facts l) as [T1 _]. rewrite cross_check_family_isok; auto.
@@ -1128,10 +1132,10 @@ Proof. intros. unfold parse_args, parse_nested_family. rewrite cps_actor. rewrit
 Lemma forallb_false_In : forall {A} (f : A -> bool) l x, In x l -> f x = false -> forallb f l = false.
 Proof. intros. destruct (forallb f l) eqn:E; auto. rewrite forallb_forall in E. rewrite E in H0; auto. Qed.
 
-Theorem actor_rule_invalid_item : forall l m, existsb k_leaf_item l = false -> In m l -> item_valid fexists Actor m = false ->
+Theorem actor_rule_invalid_item : forall l m, In m l -> item_valid fexists Actor m = false ->
   is_ok (parse_args fexists fcount Actor l) = false.
 Proof.
-  intros. rewrite actor_accept_iff_valid; auto. unfold valid_actor. rewrite (forallb_false_In _ _ _ H0 H1).
+  intros l m I V. rewrite actor_accept_iff_valid. unfold valid_actor. rewrite (forallb_false_In _ _ _ I V).
   rewrite andb_false_r. auto.
 Qed.
 
@@ -1156,56 +1160,81 @@ Proof.
     + simpl in *. specialize (IHl H H0). apply Nat.leb_gt in IHl. unfold nf, is_filter_key in IHl. auto.
 Qed.
 
-Theorem actor_rule_include_exclude : forall l, existsb k_leaf_item l = false -> has_key KInclude l = true -> has_key KExclude l = true ->
+Theorem actor_rule_include_exclude : forall l, has_key KInclude l = true -> has_key KExclude l = true ->
   is_ok (parse_args fexists fcount Actor l) = false.
 Proof.
-  intros. rewrite actor_accept_iff_valid; auto. unfold valid_actor. rewrite include_exclude_nf; auto.
+  intros l I X. rewrite actor_accept_iff_valid. unfold valid_actor. rewrite include_exclude_nf; auto.
   rewrite andb_false_r. auto.
 Qed.
 
-Theorem actor_rule_marker_needs_file : forall l, existsb k_leaf_item l = false -> markers Actor l = true -> has_key KFile l = false ->
+Theorem actor_rule_marker_needs_file : forall l, markers l = true -> has_key KFile l = false ->
   is_ok (parse_args fexists fcount Actor l) = false.
 Proof.
-  intros. rewrite actor_accept_iff_valid; auto. unfold valid_actor. rewrite H0. unfold file_one. rewrite (has_key_find_none _ _ H1).
+  intros l M F. rewrite actor_accept_iff_valid. unfold valid_actor. rewrite M. unfold file_one. rewrite (has_key_find_none _ _ F).
   rewrite andb_false_r. auto.
 Qed.
 
-Theorem actor_rule_marker_one_macro : forall l m f, existsb k_leaf_item l = false -> markers Actor l = true ->
+Theorem actor_rule_marker_one_macro : forall l m f, markers l = true ->
   find_key KFile l = Some m -> v_str m = Some f -> fcount f <> FOne -> is_ok (parse_args fexists fcount Actor l) = false.
 Proof.
-  intros. rewrite actor_accept_iff_valid; auto. unfold valid_actor. rewrite H0. unfold file_one. rewrite H1, H2.
+  intros l m f M F V C. rewrite actor_accept_iff_valid. unfold valid_actor. rewrite M. unfold file_one. rewrite F, V.
   destruct (fcount f); try congruence; rewrite andb_false_r; auto.
 Qed.
 
-Theorem family_rule_invalid_item : forall l m, k_leaf l = false -> In m l -> fam_item_valid fexists m = false ->
+Theorem family_rule_invalid_item : forall l m, In m l -> fam_item_valid fexists m = false ->
   is_ok (parse_args fexists fcount Family l) = false.
 Proof.
-  intros. rewrite family_accept_iff_valid; auto. unfold valid_family. rewrite (forallb_false_In _ _ _ H0 H1).
+  intros l m I V. rewrite family_accept_iff_valid. unfold valid_family. rewrite (forallb_false_In _ _ _ I V).
   rewrite andb_false_r. auto.
 Qed.
 
-Theorem family_rule_smol : forall l, k_leaf l = false -> fam_lib l = Smol -> is_ok (parse_args fexists fcount Family l) = false.
-Proof. intros. rewrite family_accept_iff_valid; auto. unfold valid_family. rewrite H0. simpl. rewrite andb_false_r. auto. Qed.
+Theorem family_rule_smol : forall l, fam_lib l = Smol -> is_ok (parse_args fexists fcount Family l) = false.
+Proof. intros l H. rewrite family_accept_iff_valid. unfold valid_family. rewrite H. simpl. rewrite andb_false_r. auto. Qed.
 
-Theorem family_rule_no_members : forall l, k_leaf l = false -> members_of l = [] -> is_ok (parse_args fexists fcount Family l) = false.
-Proof. intros. rewrite family_accept_iff_valid; auto. unfold valid_family. rewrite H0. simpl. repeat rewrite andb_false_r. auto. Qed.
+Theorem family_rule_no_members : forall l, members_of l = [] -> is_ok (parse_args fexists fcount Family l) = false.
+Proof. intros l H. rewrite family_accept_iff_valid. unfold valid_family. rewrite H. simpl. repeat rewrite andb_false_r. auto. Qed.
 
-Theorem family_rule_member_invalid : forall l mem, k_leaf l = false -> In mem (members_of l) -> member_valid fexists mem = false ->
+Theorem family_rule_member_invalid : forall l mem, In mem (members_of l) -> member_valid fexists mem = false ->
   is_ok (parse_args fexists fcount Family l) = false.
 Proof.
-  intros. rewrite family_accept_iff_valid; auto. unfold valid_family. rewrite (forallb_false_In _ _ _ H0 H1).
+  intros l mem I V. rewrite family_accept_iff_valid. unfold valid_family. rewrite (forallb_false_In _ _ _ I V).
   repeat rewrite andb_false_r. auto.
 Qed.
 
 Lemma member_needs_first_name : forall p ml, has_key KFirstName ml = false -> member_valid fexists (MList p ml) = false.
 Proof. intros. unfold member_valid. rewrite H. rewrite andb_false_r. auto. Qed.
 
-Theorem family_rule_marker_needs_file : forall l, k_leaf l = false -> fam_markers l = true -> has_key KFile l = false ->
+Lemma member_item_invalid : forall p ml m, In m ml -> item_valid fexists Family m = false -> member_valid fexists (MList p ml) = false.
+Proof. intros p ml m I V. unfold member_valid. rewrite (forallb_false_In _ _ _ I V). repeat rewrite andb_false_r. auto. Qed.
+
+Theorem family_rule_marker_needs_file : forall l, fam_markers l = true -> has_key KFile l = false ->
   is_ok (parse_args fexists fcount Family l) = false.
 Proof.
-  intros. rewrite family_accept_iff_valid; auto. unfold valid_family. rewrite H0. unfold file_one. rewrite (has_key_find_none _ _ H1).
+  intros l M F. rewrite family_accept_iff_valid. unfold valid_family. rewrite M. unfold file_one. rewrite (has_key_find_none _ _ F).
   simpl. repeat rewrite andb_false_r. auto.
 Qed.
+
+(* former known-finding classes, now rules *)
+Lemma name_not_ident_invalid : forall mc m, mkey m = KName -> v_name m = false -> item_valid fexists mc m = false.
+Proof. intros. unfold item_valid. rewrite H. auto. Qed.
+
+Lemma word_only_invalid : forall mc m, mkey m = KDebug -> v_flag m = false -> item_valid fexists mc m = false.
+Proof. intros. unfold item_valid. rewrite H. auto. Qed.
+
+Lemma filter_names_words_only : forall mc m, (mkey m = KInclude \/ mkey m = KExclude) -> v_filter m = false -> item_valid fexists mc m = false.
+Proof. intros mc m [H|H] V; unfold item_valid; rewrite H; auto. Qed.
+
+Lemma lock_word_only : forall m, (mkey m = KMutex \/ mkey m = KRwLock) -> v_flag m = false -> fam_item_valid fexists m = false.
+Proof. intros m [H|H] V; unfold fam_item_valid; rewrite H; auto. Qed.
+
+Theorem example_rule_invalid_item : forall l m, In m l -> ex_item_valid fexists m = false -> is_ok (parse_example fexists l) = false.
+Proof.
+  intros l m I V. rewrite example_accept_iff_valid. unfold valid_example. rewrite (forallb_false_In _ _ _ I V).
+  rewrite andb_false_r. auto.
+Qed.
+
+Lemma example_unknown_invalid : forall m, xclassify m = XOther -> ex_item_valid fexists m = false.
+Proof. intros. unfold ex_item_valid. rewrite H. auto. Qed.
 
 (* ---------- accepted options are reflected: lookup forms ---------- *)
 Lemma actor_ok_shape : forall l c, parse_args fexists fcount Actor l = Ok c ->
@@ -1214,7 +1243,7 @@ Lemma actor_ok_shape : forall l c, parse_args fexists fcount Actor l = Ok c ->
 Proof.
   intros l c H. pose proof (actor_faithful l c H) as E. unfold parse_args in H. apply bind_ok in H. destruct H as [c1 [H1 _]].
   apply bind_ok in H1. destruct H1 as [a [H1 _]]. apply parse_nested_actor_den in H1. destruct H1 as [_ ND].
-  subst c. unfold denote_actor. simpl. split; auto. split; auto. destruct (markers Actor l); auto.
+  subst c. unfold denote_actor. simpl. split; auto. split; auto. destruct (markers l); auto.
 Qed.
 
 Theorem actor_lib_reflected : forall l c, parse_args fexists fcount Actor l = Ok c ->
@@ -1296,11 +1325,14 @@ Qed.
 
 End FSThm.
 
-(* ---------- documented rules of the edit grammar ("nesting `file` is not permitted", unknown edit option) ---------- *)
+(* ---------- documented rules of the edit grammar ("nesting `file` is not permitted", unknown edit option, empty lists) ---------- *)
+Lemma get_list_ne_mid : forall p l1 (x : meta) l2 h, get_list_ne (MList p (l1 ++ x :: l2)%list) h = Ok (Some (l1 ++ x :: l2)%list).
+Proof. intros. unfold get_list_ne. simpl. destruct l1; reflexivity. Qed.
+
 Theorem edit_rule_nested_file_top : forall e p l1 l2 inner,
   is_ok (edit_parse e (MList p [MList ["file"] (l1 ++ MList ["file"] inner :: l2)])) = false.
 Proof.
-  intros. unfold edit_parse. simpl. apply fold_res_fail. intros s. reflexivity.
+  intros. unfold edit_parse. simpl. rewrite get_list_ne_mid. simpl. apply fold_res_fail. intros s. reflexivity.
 Qed.
 
 Theorem edit_rule_nested_file_in_sol : forall e sol l1 l2 inner, (sol = "script" \/ sol = "live") ->
@@ -1309,9 +1341,25 @@ Proof.
   intros e sol l1 l2 inner S. unfold parse_sol.
   destruct (if is_ident (mpath (MList [sol] (l1 ++ MList ["file"] inner :: l2))) "script" then if is_none (e_script e) then Ok true else Diag DDup
             else if is_ident (mpath (MList [sol] (l1 ++ MList ["file"] inner :: l2))) "live" then if is_none (e_live e) then Ok false else Diag DDup else Diag DEdit); simpl; auto.
-  apply fold_res_fail. intros s. reflexivity.
+  rewrite get_list_ne_mid. simpl. apply fold_res_fail. intros s. reflexivity.
 Qed.
 
 Theorem edit_rule_unknown_option : forall e p x, is_ident (mpath x) "script" = false -> is_ident (mpath x) "live" = false ->
   is_ident (mpath x) "file" = false -> is_ok (edit_parse e (MList p [x])) = false.
 Proof. intros e p x H1 H2 H3. unfold edit_parse. simpl. rewrite H3. unfold parse_sol. rewrite H1, H2. reflexivity. Qed.
+
+(* `edit()`, `script()`, `live()`, `imp()`, `trt()`, `file()`: an empty list is rejected wherever the edit grammar reads a list *)
+Theorem edit_rule_empty_list : forall e p,
+  is_ok (edit_parse e (MList p [])) = false /\ is_ok (edit_parse_family e (MList p [])) = false
+  /\ (forall f, is_ok (parse_sol e (MList p []) f) = false)
+  /\ (forall os f, is_ok (nested_idents os (MList p []) f) = false)
+  /\ is_ok (get_file_list (MList p [])) = false.
+Proof.
+  intros e p. repeat split; try reflexivity.
+  intros f. unfold parse_sol. destruct (if is_ident (mpath (MList p [])) "script" then if is_none (e_script e) then Ok true else Diag DDup
+            else if is_ident (mpath (MList p [])) "live" then if is_none (e_live e) then Ok false else Diag DDup else Diag DEdit); reflexivity.
+Qed.
+
+Theorem edit_rule_empty_file_list : forall e p q, is_ok (edit_parse e (MList p [MList ["file"] []; q])) = false
+  /\ is_ok (edit_parse e (MList p [MList ["file"] []])) = false.
+Proof. intros. split; reflexivity. Qed.
